@@ -1,13 +1,18 @@
 package main
 
 import (
+	"context"
+	"encoding/json"
 	"fmt"
 	"math/rand"
 	"os"
 	"os/exec"
 	"path/filepath"
 	"regexp"
+	"runtime/debug"
 	"strings"
+	"sync/atomic"
+	"time"
 
 	"github.com/weedbox/pokerface"
 	"github.com/weedbox/pokerface/combination"
@@ -74,11 +79,84 @@ func runHands(ctx *RunCtx, rep *Report, stream int64, n int, g GenOpts, scripted
 			}
 		}
 		h := &Hand{Prop: ctx.Prop, C: c, R: r, Rep: local, Seed: ctx.Seed, CaseIdx: i, Scripted: script}
-		playHand(h, mk())
+		if ctx.Prop == "C06" {
+			if !playHandGuarded(ctx, h, mk(), local) {
+				return
+			}
+		} else {
+			playHand(h, mk())
+		}
 		if i%997 == 3 || i < 2 {
 			local.Sample(sampleHand(h), 3)
 		}
 	})
+}
+
+// An engine call that never returns cannot be observed from inside the hand. For C06 ("that step always
+// succeeds", "always finishes") every hand runs on its own goroutine; when one makes no progress for
+// stallLimit, the steps recorded so far (the pending call is the last one) are written out and replayed
+// by a child process of its own, with nothing else running in it. Only if the child does not come back
+// either is this reported - the verdict rests on the isolated re-execution, not on the loaded parent's
+// clock. The stuck goroutine cannot be stopped; it is left behind, and the run stops dealing new hands.
+const stallLimit = 45 * time.Second
+
+var stallStop int32
+
+func playHandGuarded(ctx *RunCtx, h *Hand, mon Monitor, local *Report) bool {
+	if atomic.LoadInt32(&stallStop) != 0 {
+		return false
+	}
+	own := NewReport()
+	h.Rep = own
+	done := make(chan struct{})
+	go func() {
+		defer close(done)
+		defer func() {
+			if e := recover(); e != nil {
+				own.Violate(&Violation{Prop: ctx.Prop, Rule: ctx.Prop + "/panic", Cause: "in=harness-or-monitor", Msg: fmt.Sprintf("panic: %v\n%s", e, firstLines(string(debug.Stack()), 24)), Kind: "panic", Seed: ctx.Seed, CaseIndex: h.CaseIdx})
+			}
+		}()
+		playHand(h, mon)
+	}()
+	timer := time.NewTimer(stallLimit)
+	defer timer.Stop()
+	select {
+	case <-done:
+		local.Merge(own)
+		h.Rep = local
+		return true
+	case <-timer.C:
+	}
+	// no progress: confirm in isolation
+	tr := append([]TraceStep{}, h.Trace...)
+	v := &Violation{Prop: ctx.Prop, Rule: "C06/operation-does-not-return", Cause: opCause(lastOf(tr)), Kind: "hand",
+		Case: map[string]interface{}{"cfg": h.C, "trace": tr}, Seed: ctx.Seed, CaseIndex: h.CaseIdx}
+	v.Signature = v.Rule + "|" + v.Cause
+	v.Msg = fmt.Sprintf("the engine did not return from %+v (step %d of the hand) within %v, and not within %v either when the recorded steps were replayed alone in a fresh process", lastOf(tr), len(tr), stallLimit, stallLimit)
+	os.MkdirAll(ctx.ReplayDir, 0o755)
+	path := filepath.Join(ctx.ReplayDir, fmt.Sprintf(".stall-%s-%d-%d.json", ctx.Prop, ctx.Seed, h.CaseIdx))
+	b, _ := json.Marshal(map[string]interface{}{"violation": v, "occurrences": 1, "tier": ctx.Tier})
+	os.WriteFile(path, b, 0o644)
+	defer os.Remove(path)
+	cctx, cancel := context.WithTimeout(context.Background(), stallLimit)
+	defer cancel()
+	err := exec.CommandContext(cctx, os.Args[0], "replay", path).Run()
+	if cctx.Err() == context.DeadlineExceeded {
+		local.Inc("engine_calls_that_did_not_return")
+		local.Violate(v)
+		atomic.StoreInt32(&stallStop, 1)
+		return false
+	}
+	_ = err
+	local.Inc("stalls_not_confirmed_in_isolation")
+	return false
+}
+
+func lastOf(tr []TraceStep) Op {
+	if len(tr) == 0 {
+		return Op{Name: "start", Seat: -1}
+	}
+	return tr[len(tr)-1].Op
 }
 
 // --- scripted scenarios -----------------------------------------------------------------------
@@ -300,7 +378,7 @@ func checkC06(ctx *RunCtx) int {
 		}
 		boardPlaysTweak(c, r)
 	}
-	runHands(ctx, rep, 6, ctx.N(6000, 300000), GenOpts{Hostile: true}, commonScenarios(), tweak, func() Monitor { return &C06Mon{} })
+	runHands(ctx, rep, 6, ctx.N(6000, 300000), GenOpts{Hostile: true, Unlabelled: true}, commonScenarios(), tweak, func() Monitor { return &C06Mon{} })
 	// independent hands on several goroutines under the race detector: games share nothing by design, a
 	// data race between them ends in a crash or a hang sooner or later
 	extra := map[string]interface{}{}
